@@ -695,6 +695,7 @@ def run(ctx):
     lagrange_rule(ctx)
     ctx.attempt(lagrange_condition_rule, ctx)
     ctx.attempt(orphan_detection_rule, ctx)
+    ctx.attempt(saddle_point_dispatch_rule, ctx)
     prescription_order_rule(ctx)
     from . import c03
 
@@ -813,3 +814,66 @@ def orphan_detection_rule(ctx):
             r.ok(f"Nn = {Nn}: orphans {want}")
         else:
             r.fail(init.qualname, f"orphans:Nn={Nn}", init.file, init.lineno, "Mesh.__init__", f"{Nn} nodes, connectivities {conns}: orphan nodes are {want} but the mesh records {got}: an unrecorded orphan keeps a zero row and column, the system is singular")
+
+
+def saddle_point_dispatch_rule(ctx):
+    """R4.12: 'solving the same problem by elimination, by Lagrange multipliers or with any available linear solver backend
+    gives the same solution': with Lagrange conditions the bordered matrix is indefinite (zero diagonal block), on which
+    the Krylov backends stagnate -- and _Solve_Axb returns their last iterate without reading the convergence flag
+    (known finding F14b).  _Solve_Axb is interpreted up to the backend call, with a Lagrange condition present, for every
+    SolverType the user can select: the backend that runs must be a direct factorisation (spsolve / pypardiso / PETSc
+    configured as a direct solver), never cg / bicg / gmres / lgmres / lsq_linear."""
+    from ..xeval import EnumVal
+    from ..xarray import XArray
+
+    repo = ctx.repo
+    mod = repo.module(SOLV)
+    f = mod.functions["_Solve_Axb"]
+    st_cls = repo.cls(SOLV + ".SolverType")
+    members = repo.enum_members(SOLV + ".SolverType")
+    r = ctx.rule("R4.12", "with Lagrange conditions every selectable SolverType is served by a direct factorisation (no Krylov iterate of an indefinite bordered system is returned)", min_instances=6)
+    ITER = ("cg", "bicg", "gmres", "lgmres", "bicgstab", "minres", "lsq_linear", "qmr")
+
+    class Called(Exception):
+        def __init__(self, what):
+            self.what = what
+
+    for nm in sorted(members):
+        for pypardiso in (False, True):
+            r.instance(fn=f.qualname)
+            sel = EnumVal(st_cls, nm, members[nm])
+            A = SimpleNamespace(has_canonical_format=True, shape=(3, 3))
+            simu = SimpleNamespace(Bc_Lagrange=[Opaque("lagrange")], solver=sel, _verbosity=False,
+                                   _Solver_Get_PETSc4Py_Options=lambda pt=None: ("cg", "none", "petsc"))
+
+            def hook(fn, args, kwargs):
+                if isinstance(fn, Opaque):
+                    tail = fn.tag.split(".")[-1]
+                    if tail in ("csr_matrix",):
+                        return args[0]
+                    if tail in ("spsolve",) or tail in ITER or tail in ("norm",):
+                        if tail == "norm":
+                            return 0
+                        raise Called(fn.tag)
+                fi = fn if isinstance(fn, FuncInfo) else getattr(fn, "finfo", None)
+                if isinstance(fi, FuncInfo) and fi.name in ("_PETSc", "_PETSc_MPI"):
+                    raise Called("petsc:" + str(args[4:7] if len(args) > 6 else kwargs))
+                return NotImplemented
+
+            I = Interp(repo, extra_builtins={"MPI_SIZE": 1, "Tic": lambda *a, **k: Sink(), "CAN_USE_PYPARDISO": pypardiso, "CAN_USE_PETSC": True, "isinstance": lambda o, t: True})
+            I.call_hook = hook
+            what = None
+            try:
+                I.call_function(f, [simu, Opaque("pt"), A, SimpleNamespace(toarray=lambda: Opaque("b")), Opaque("x0"), [], []])
+            except Called as c:
+                what = c.what
+            except XRaise as e:
+                what = f"raise:{e.exc_name}"
+            tail = (what or "").split(".")[-1]
+            label = f"{nm}{'+pypardiso' if pypardiso else ''}"
+            if what is None:
+                r.fail(f.qualname, f"saddle:{label}", f.file, f.lineno, "_Solve_Axb", f"solver = {nm}, Lagrange conditions present: no backend call is reached")
+            elif tail in ITER or (what.startswith("petsc:") and "preonly" not in what):
+                r.fail(f.qualname, f"saddle:{label}", f.file, f.lineno, "_Solve_Axb", f"solver = {nm}, Lagrange conditions present: the bordered (indefinite) system is handed to {what}: an iterative backend stagnates on it and its convergence flag is not read -- the returned vector is not the solution the direct path gives")
+            else:
+                r.ok(f"{label}: Lagrange conditions -> {what}")
